@@ -654,8 +654,12 @@ example : aboveOf "#!/bin/sh \n".toList = "#!/bin/sh\n\n".toList ∧ belowOf "x\
 example : placeHeader "# h".toList (aboveOf "#!/bin/sh \n".toList) (belowOf "x\n".toList false) true =
     "#!/bin/sh\n\n# h\n\nx\n".toList := by decide
 /-- the style predicate excludes something: a Julia-like style whose reader tries the single-line marker on the
-    opener line is the defect this property found; here, a style whose terminator equals its opener is refused -/
-example : ¬ StyleIdem (⟨"X", "x", [], none, [], "%%".toList, [], "%%".toList, [], [], [], []⟩ : Generated.Style) true := by
+    opener line is the defect this property found; here, a style whose middle marker is its terminator is refused
+    (every body line would end the block).  A terminator that equals the opener is fine: on the first line the
+    reader sets the opener aside. -/
+example : ¬ StyleIdem (⟨"X", "x", [], none, [], "/*".toList, "*/".toList, "*/".toList, [], [], [], []⟩ : Generated.Style) true := by
+  decide +kernel
+example : StyleIdem (⟨"X", "x", [], none, [], "%%".toList, [], "%%".toList, [], [], [], []⟩ : Generated.Style) true := by
   decide +kernel
 
 end C10
